@@ -379,6 +379,28 @@ def gen_flat(thorough: bool) -> Iterator[tuple[str, list[list[Any]]]]:
                 t += 1
                 body.append(Ctl(terms[t % 3]))
                 yield "flat:" + "+".join(combo), [body]
+    # a switch-type operation written as a plain statement and a switch that has only a default (switch vertices without a case edge),
+    # in front of and behind every kind; routines without ops (`alias previous;`) in front of a routine with control flow
+    for c in FLAT_KINDS:
+        for special in ("ProcessSpecial", "message_Menu", "default-only"):
+            for first in (True, False):
+                nm = Names()
+                sw = [0]
+                mk = _flat_items(nm, sw)
+                if special == "default-only":
+                    sw[0] += 1
+                    sp: Any = Switch(sw[0], [Default([nm.p(), Ctl("break")])])
+                else:
+                    sp = Plain(special)
+                t += 1
+                body = [nm.p()] + ([sp, mk[c]()] if first else [mk[c](), sp]) + [Ctl(terms[t % 3])]
+                yield f"flat:caseless-{special}+{c}" if first else f"flat:{c}+caseless-{special}", [body]
+        for n_alias in (1, 2):
+            nm = Names()
+            sw = [0]
+            mk = _flat_items(nm, sw)
+            t += 1
+            yield f"flat:alias{n_alias}+{c}", [[nm.p(), Ctl("end")]] + [[Ctl("alias previous")] for _ in range(n_alias)] + [([nm.p()] if n_alias == 2 else []) + [mk[c](), Ctl(terms[t % 3])]]
 
 
 def gen_nested(thorough: bool) -> Iterator[tuple[str, list[list[Any]]]]:
